@@ -13,6 +13,7 @@ def Out.routedTo : Out → Option URL
 /-- is the operation an add / update of this key -/
 def Op.upsertsKey (k : Key) : Op → Prop
   | .upsert u _ => u.key = k
+  | .upsertFailing u _ => u.key = k
   | _ => False
 
 theorem Sys.step_next (s : Sys) :
@@ -53,6 +54,9 @@ theorem Sys.routed_member {s : Sys} (h : s.Inv) (op : Op) {x : URL} (hx : (s.ste
     cases w with
     | none => simp [Out.routedTo] at hx
     | some w => cases w <;> simp [Out.routedTo] at hx
+  | upsertFailing u w =>
+    simp only [Sys.step] at hx
+    split at hx <;> simp [Out.routedTo] at hx
   | remove u =>
     unfold Sys.step at hx
     simp only at hx
@@ -87,6 +91,15 @@ theorem Sys.step_keys {s : Sys} (h : s.Inv) (op : Op) (k : Key) :
         cases w with
         | ofNat w => simpa [specStep, Spec.upsert, Ne.symm he] using hk
         | negSucc w => simpa [specStep] using hk
+  | upsertFailing u w =>
+    by_cases he : u.key = k
+    · exact Or.inr he
+    · left
+      rw [← Sys.configured_mem h]
+      simp only [specStep] at hk
+      split at hk
+      · exact hk
+      · simpa [Spec.upsert, Ne.symm he] using hk
   | remove u =>
     left
     rw [← Sys.configured_mem h]
